@@ -46,18 +46,32 @@ def _build(repo):
     return os.path.join(tdir, 'debug', 'vx_witness')
 
 
+def target_for(cfg, fn):
+    """the search target for a function label: its own entry, else the property's default target (if any)"""
+    if not cfg or not fn:
+        return None
+    return cfg.get('targets', {}).get(fn) or cfg.get('default')
+
+
+def _ignore_args(cfg, tgt):
+    # the decoder targets take a committed list of disagreements already recorded as known findings (never written at run time)
+    if cfg.get('ignore_file') and tgt in ('decoders', 'dec_all'):
+        return ['--ignore-file', os.path.join(VERIF, cfg['ignore_file'])]
+    return []
+
+
 def search(cfg, failure, repo='/repo'):
     """cfg: {"kind": "vx_witness", "targets": {<function label>: <search target>}, "universe": 6}"""
     if cfg.get('kind') != 'vx_witness':
         return None
-    tgt = cfg.get('targets', {}).get(failure.get('function'))
+    tgt = target_for(cfg, failure.get('function'))
     if not tgt:
         return None
     exe = _build(repo)
     if not exe:
         return None
     try:
-        p = subprocess.run([exe, 'search', tgt, '--universe', str(cfg.get('universe', 6)), '--max-seconds', str(cfg.get('max_seconds', 120))],
+        p = subprocess.run([exe, 'search', tgt, '--universe', str(cfg.get('universe', 6)), '--max-seconds', str(cfg.get('max_seconds', 120))] + _ignore_args(cfg, tgt),
                            stdout=subprocess.PIPE, stderr=subprocess.PIPE, text=True, timeout=cfg.get('max_seconds', 120) + 60)
     except subprocess.TimeoutExpired:
         return None
@@ -128,7 +142,7 @@ def fidelity(cfg, repo='/repo'):
     if not exe:
         return None, 'witness tool not built', 0
     try:
-        p = subprocess.run([exe, 'search', cfg.get('target', 'all'), '--universe', str(cfg.get('universe', 7)), '--max-seconds', str(cfg.get('max_seconds', 300))],
+        p = subprocess.run([exe, 'search', cfg.get('target', 'all'), '--universe', str(cfg.get('universe', 7)), '--max-seconds', str(cfg.get('max_seconds', 300))] + _ignore_args(cfg, cfg.get('target', 'all')),
                            stdout=subprocess.PIPE, stderr=subprocess.PIPE, text=True, timeout=cfg.get('max_seconds', 300) + 120)
     except subprocess.TimeoutExpired:
         return None, 'timeout', 0
@@ -138,5 +152,6 @@ def fidelity(cfg, repo='/repo'):
     except ValueError:
         return None, 'unparsable output', 0
     if js.get('found') is False:
-        return True, 'real crate agrees with the oracle of witness target %s on %d cases' % (cfg.get('target', 'all'), js.get('cases', 0)), js.get('cases', 0)
+        ign = js.get('ignored_disagreements', 0)
+        return True, 'real crate agrees with the oracle of witness target %s on %d cases%s' % (cfg.get('target', 'all'), js.get('cases', 0), (' (%d disagreements listed in %s ignored: known finding)' % (ign, cfg.get('ignore_file')) if ign else '')), js.get('cases', 0)
     return False, json.dumps(js)[:600], 0
